@@ -54,8 +54,9 @@ ASSUMPTIONS = [
     "the dependency graph is acyclic and every requisite has a row (validated at submit time); the model and the "
     "correspondence nevertheless cover cyclic and dangling graphs (Kahn drops a cycle silently, a missing row is a KeyError)",
     "no custom reducer is registered (register_reducer); built-in registry regenerated from reducers.py",
-    "engine-level observation (the context handed to Task.execute in full runs) is the engine harness's part; here "
-    "_plan_stage is called directly on a real store, plus one real-engine jump loop",
+    "_plan_stage is called directly on a real store (plus one real-engine jump loop); the context handed to Task.execute in "
+    "full engine runs - every delivery order, a crash after every commit with FIFO / LIFO drain, recovery sweeps - is checked "
+    "by the engine part (commit-level correspondence with model/Engine.v, monitor m_c16)",
 ]
 
 PROBE = "zz_probe"
